@@ -78,13 +78,17 @@ def _extract(db, chk, m):
             return Frame(("param", "TR", to_term(pos[0])))
         return NotImplemented
 
-    for dev, want in (("CPU", {-1: True, 1: False, 7: False}), ("GPU", {-1: False, 1: True, 7: True}), ("ALL", {-1: True, 1: True, 7: True})):
+    for dev, want in (("CPU", {-1: True, 0: False, 1: False, 7: False}), ("GPU", {-1: False, 0: True, 1: True, 7: True}), ("ALL", {-1: True, 0: True, 1: True, 7: True})):
         I = Interp(db, call_hook=hook)
         runs = [r for r in I.explore(ref, lambda I: {"self": Obj("self", attrs={"label": "L", "t": Obj("t")}), "rank": 1, "iteration": [5, 7],
                                                      "device_type": ("enum", "DeviceType", dev)}) if r.raised is None]
-        if len(runs) != 1 or not isinstance(runs[0].ret, Frame):
-            chk.ob(rule, f"extract_ops(rank=1, iteration=[5,7], {dev}): one normal path", None, where, found=len(runs))
+        runs = [r for r in runs if isinstance(r.ret, Frame)]
+        if not runs or len(runs) > 6:
+            chk.ob(rule, f"extract_ops(rank=1, iteration=[5,7], {dev}): analysable paths", None, where, found=len(runs))
             continue
+        for R in [r.ret for r in runs]:
+          _one_selection(chk, rule, where, dev, want, R)
+        continue
         R = runs[0].ret
         TR = ("param", "TR", T.C(1))
         conj = list(R.rows[1]) if R.rows[0] == "and" else [R.rows]
@@ -93,12 +97,28 @@ def _extract(db, chk, m):
                found=[T.show(R.base), [T.show(c)[:100] for c in conj]], accepted=T.show(it), why="between(min, max) also counts the iterations lying between two requested ones")
         rest = [c for c in conj if c != it]
         try:
-            tt = {sv: bool(T.evaluate(T.and_(*rest), lambda leaf, sv=sv: sv if leaf == T.col(TR, "stream") else (_ for _ in ()).throw(T.Unknown(leaf)))) for sv in (-1, 1, 7)}
+            tt = {sv: bool(T.evaluate(T.and_(*rest), lambda leaf, sv=sv: sv if leaf == T.col(TR, "stream") else (_ for _ in ()).throw(T.Unknown(leaf)))) for sv in (-1, 0, 1, 7)}
         except T.Unknown:
             tt = None
-        chk.ob(rule, f"[{dev}] device filter truth table over stream", tt == want, where, found=tt if tt is not None else [T.show(c)[:100] for c in rest], accepted=want)
+        chk.ob(rule, f"[{dev}] device filter: a predicate over the stream alone (CPU: stream == -1, GPU: every other stream)", tt == want, where, found=tt if tt is not None else [T.show(c)[:100] for c in rest], accepted=want)
         chk.ob(rule, f"[{dev}] selection only (no reordering / new columns)", R.order is None and not R.cols, where, found={"order": T.show_order(R.order), "cols": list(R.cols)}, accepted="row selection")
     chk.floor(rule, 9)
+
+
+def _one_selection(chk, rule, where, dev, want, R):
+    TR = ("param", "TR", T.C(1))
+    conj = list(R.rows[1]) if R.rows[0] == "and" else [R.rows]
+    it = T.isin(T.col(TR, "iteration"), [T.C(5), T.C(7)])
+    chk.ob(rule, f"[{dev}] events of the requested rank's frame whose iteration is among the requested ones (membership, not a range)", R.base == TR and it in conj, where,
+           found=[T.show(R.base), [T.show(c)[:100] for c in conj]], accepted=T.show(it), why="between(min, max) also counts the iterations lying between two requested ones")
+    rest = [c for c in conj if c != it]
+    try:
+        tt = {sv: bool(T.evaluate(T.and_(*rest), lambda leaf, sv=sv: sv if leaf == T.col(TR, "stream") else (_ for _ in ()).throw(T.Unknown(leaf)))) for sv in (-1, 0, 1, 7)}
+    except T.Unknown:
+        tt = None
+    chk.ob(rule, f"[{dev}] device filter: a predicate over the stream alone (CPU: stream == -1, GPU: every other stream)", tt == want, where, found=tt if tt is not None else [T.show(c)[:100] for c in rest], accepted=want,
+           why="a predicate that also reads name/correlation moves e.g. synchronisation records on stream -1 from the CPU table to the GPU table")
+    chk.ob(rule, f"[{dev}] selection only (no reordering / new columns)", R.order is None and not R.cols, where, found={"order": T.show_order(R.order), "cols": list(R.cols)}, accepted="row selection")
 
 
 def _compare(db, chk, m):
@@ -217,3 +237,49 @@ def _classes(db, chk, m):
         except T.Unknown as u:
             chk.ob(rule, f"counts (control={c}, test={t}): masks read only the two count columns and diff_counts", False, where, found=T.show(u.args[0])[:120], accepted="CTL_counts, TST_counts, diff_counts")
     chk.floor(rule, 15)
+    # ---- the two cooperating sites: the column names ops_diff reads are the names compare_traces writes, also when both traces carry the same label
+    def hook_eq(I, name, pos, kw, node):
+        if name == "_trace_argument_adapter":
+            return pos[0]
+        if name.endswith(".extract_ops"):
+            return Frame(("param", "OPS"))
+        if name.endswith(".get_ops_summary"):
+            recv = I.eval(node.func.value)
+            return Frame(("param", "SUM_" + getattr(recv, "name", "?")), known=list(SUMCOLS))
+        return NotImplemented
+
+    I = Interp(db, call_hook=hook_eq)
+    runs = [r for r in I.explore(ref, lambda I: {"cls": Obj("cls", cls=(m, "TraceDiff")), "control": Obj("control", attrs={"label": "SAME"}), "test": Obj("test", attrs={"label": "SAME"}),
+                                                 "control_rank": T.P("CR"), "test_rank": T.P("TRK"), "control_iteration": T.P("CI"), "test_iteration": T.P("TI"), "device_type": T.P("DEV")})
+            if r.raised is None and isinstance(r.ret, dict)]
+    if len(runs) != 1:
+        chk.ob(rule, "ops_diff with identical labels: one path", None, where, found=len(runs))
+        return
+    masks2 = {}
+    for k, v in runs[0].ret.items():
+        t = to_term(v)
+        if t[0] == "tolist" and isinstance(t[2], tuple) and len(t[2]) == 3:
+            masks2[k] = t[2][1]
+    bad = []
+    verdict = True if len(masks2) == 5 else None
+    if verdict:
+        for c, t_ in cases:
+            def leaf(x, c=c, t_=t_):
+                y = x
+                while isinstance(y, tuple) and y and y[0] in ("fillna", "nullable"):
+                    y = y[1]
+                if isinstance(y, tuple) and y and y[0] == "c1col" and "counts" in T.show(y[3]):
+                    return c if y[2] == 0 else t_
+                raise T.Unknown(x)
+            try:
+                hit = sorted(k for k, mk in masks2.items() if T.evaluate(mk, leaf))
+            except T.Unknown as u:
+                verdict = None
+                bad.append("reads " + T.show(u.args[0])[:80])
+                break
+            if hit != [expect(c, t_)]:
+                verdict = False
+                bad.append({"control": c, "test": t_, "classes": hit, "expected": expect(c, t_)})
+    chk.ob(rule, "identical labels on both traces: with compare_traces inlined, every (control, test) count pattern still falls into exactly its class", verdict, where,
+           found=bad[:3] or "10 patterns agree", accepted="same partition as with distinct labels",
+           why="compare_traces renames the test label when both labels are equal; ops_diff must look the columns up under the same (renamed) label, else every name is classified from the control counts alone")
